@@ -426,9 +426,12 @@ class VariableFeatureCompiler(FeatureCompiler):
         ttFont=None,
         glyphSet=None,
         featureWriters=None,
+        glyphSets=None,
         **kwargs,
     ):
         self.designspace = designspace
+        # optional mapping of source name to that source's pre-processed glyph set
+        self.glyphSets = glyphSets or {}
         super().__init__(ufo, ttFont, glyphSet, featureWriters, **kwargs)
 
     def setupFeatures(self):
